@@ -84,6 +84,19 @@ def alias_wrappers(P, rep, rule="ALIAS.wrapper"):
                     pa = [a for a in args if "Point<" in sc(a).get("t", "") and "vector" not in sc(a).get("t", "")]
                     argk.append(sc(pa[0]).get("r") if pa else None)
             good = names == [impl, impl] and pk in argk and len(set(argk)) == 2
+        # every way out of the spherical branch tries both aliases
+        early = []
+        for st in F.walk():
+            if st.get("k") == "IfStmt" and "spherical" in norm.render(P, st["c"][0]):
+                for r in F.walk(st["c"][1]):
+                    if r.get("k") == "ReturnStmt" and r.get("c") and not (sc(r["c"][0]).get("k") == "BinaryOperator" and sc(r["c"][0]).get("op") == "||"):
+                        early.append(r)
+        if early:
+            good = False
+            rep.violation(rule, "%s leaves the spherical branch by `%s`" % (label, norm.render(P, early[0])[:80]), F.nloc(early[0]), F.qn, norm.render(P, early[0])[:140],
+                          "on that path only one of the two longitude aliases is tried", key="%s|%s|early" % (rule, F.qn),
+                          witness="feature given with longitudes on the other 2*pi sheet than the query (below -180 or above 180)")
+            continue
         if good:
             rep.ok(rule, "%s returns %s(point) || %s(alias)" % (label, impl, impl), F.loc, F.qn)
         else:
